@@ -331,6 +331,23 @@ where
             (_, Out::Err(_)) => unreachable!(),
         }
     }
+    // the three ways a format can hand over a string (transient, borrowed from the input, owned)
+    {
+        use serde::de::IntoDeserializer;
+        let routes: [(&str, Out<Result<GenericPurl<T>, ValueError>>); 2] = [
+            ("owned String", guard("Deserialize (owned string)", || GenericPurl::<T>::deserialize(IntoDeserializer::<ValueError>::into_deserializer(s.to_owned())))),
+            ("borrowed str", guard("Deserialize (borrowed str)", || GenericPurl::<T>::deserialize(serde::de::value::BorrowedStrDeserializer::<ValueError>::new(s)))),
+        ];
+        for (how, de) in routes {
+            match (&direct, de) {
+                (_, Out::Panic(m)) => return (seen, Some(Fail::tagged("panicked", m.clone(), format!("deserialising {s:?} ({how}): {m}")))),
+                (Out::Ok(p), Out::Ok(Ok(q))) if *p != q => return (seen, Some(Fail::tagged("deserialised-differs", how, format!("{s:?} via {how}: deserialised {:?}, from_str gives {:?}", Snap::of(&q), Snap::of(p))))),
+                (Out::Ok(_), Out::Ok(Err(e))) => return (seen, Some(Fail::tagged("deserialise-refuses-valid", how, format!("{s:?} parses, but deserialising it ({how}) fails: {e}")))),
+                (Out::Err(e), Out::Ok(Ok(q))) => return (seen, Some(Fail::tagged("deserialise-accepts-invalid", how, format!("from_str({s:?}) = Err({e}) but deserialising it ({how}) gives {:?}", Snap::of(&q))))),
+                _ => {},
+            }
+        }
+    }
     // a deserializer that is not human readable (binary formats) must behave the same
     match (&direct, guard("Deserialize (non-human-readable format)", || GenericPurl::<T>::deserialize(BinaryStr(s)))) {
         (_, Out::Panic(m)) => return (seen, Some(Fail::tagged("panicked", m.clone(), format!("deserialising {s:?} from a binary format: {m}")))),
@@ -424,6 +441,28 @@ fn judge_dyn(inst: &str, s: &str) -> (Seen, Option<Fail>) {
 }
 
 /// Values that are not strings must be refused.
+/// A deserializer for formats that wrap values explicitly: it answers every request with
+/// `visit_some(string)` (an `Option`) or `visit_newtype_struct(string)`; the payload is a
+/// valid PURL string, but the value is not a string.
+struct Wrapped(&'static str, bool);
+
+impl<'de> serde::Deserializer<'de> for Wrapped {
+    type Error = ValueError;
+
+    fn deserialize_any<V: serde::de::Visitor<'de>>(self, v: V) -> Result<V::Value, ValueError> {
+        let inner = StrDeserializer::<ValueError>::new(self.0);
+        if self.1 {
+            v.visit_some(inner)
+        } else {
+            v.visit_newtype_struct(inner)
+        }
+    }
+
+    serde::forward_to_deserialize_any! {
+        bool i8 i16 i32 i64 i128 u8 u16 u32 u64 u128 f32 f64 char str string bytes byte_buf option unit unit_struct newtype_struct seq tuple tuple_struct map struct enum identifier ignored_any
+    }
+}
+
 pub fn non_string_battery<T>() -> (u64, Option<Fail>)
 where
     T: FromStr + PurlShape + Debug,
@@ -450,6 +489,8 @@ where
         ("i64", (GenericPurl::<T>::deserialize(I64Deserializer::<ValueError>::new(-7)) as D<T>).is_ok()),
         ("seq", (GenericPurl::<T>::deserialize(SeqDeserializer::<_, ValueError>::new(vec!["pkg:t/n"].into_iter())) as D<T>).is_ok()),
         ("map", (GenericPurl::<T>::deserialize(MapDeserializer::<_, ValueError>::new(vec![("pkg:t/n", "x")].into_iter())) as D<T>).is_ok()),
+        ("Some(string)", (GenericPurl::<T>::deserialize(Wrapped("pkg:npm/n", true)) as D<T>).is_ok()),
+        ("newtype struct around a string", (GenericPurl::<T>::deserialize(Wrapped("pkg:npm/n", false)) as D<T>).is_ok()),
     ];
     for (what, accepted) in checks {
         n += 1;
@@ -487,6 +528,17 @@ fn one(ctx: &mut Ctx, inst: &'static str, s: &str) {
         let min = shrink_str(s, &mut |c| judge_dyn(inst, c).1.map_or(false, |g| g.kind == kind && g.tag == tag));
         let g = judge_dyn(inst, &min).1.unwrap_or(f);
         ctx.st.violation("C16.serde", g.signature("C16.serde", &min), g.detail, json!({"kind": "string", "instantiation": inst, "input": min}));
+    }
+    // one accepted string in eight also with its scheme in another letter case: whatever
+    // from_str says to that, every Deserialize route must say too
+    if seen.accepted && s.starts_with("pkg:") && fnv(s.as_bytes()) % 8 == 0 {
+        for scheme in ["PKG:", "Pkg:", "pKg:"] {
+            let v = format!("{scheme}{}", &s[4..]);
+            ctx.st.count("scheme-case-variants");
+            if let Some(g) = judge_dyn(inst, &v).1 {
+                ctx.st.violation("C16.serde", g.signature("C16.serde", &v), g.detail, json!({"kind": "string", "instantiation": inst, "input": v}));
+            }
+        }
     }
 }
 
